@@ -454,7 +454,7 @@ int main(int argc, char **argv) {
     if (unit == "builtin_sort_rows") return r_sort_rows(w);
     if (unit == "builtin_diagonal") return r_inductive_only("diagonal");
     if (unit == "builtin_scale_inductive") return r_inductive_only("scale");
-    if (unit == "builtin_spectral_radius_gershgorin") return r_gershgorin(w);
+    if (unit == "builtin_spectral_radius_gershgorin" || unit == "builtin_spectral_radius_gershgorin_inductive") return r_gershgorin(w);
     if (unit == "builtin_product_dispatch") return r_inductive_only("product dispatch");
     if (unit == "spgemm_merge_rows_cols") return r_merge_rows(w, false);
     if (unit == "spgemm_merge_rows_vals") return r_merge_rows(w, true);
